@@ -393,7 +393,7 @@ Qed.
     [merge order]: the sources of the merge iterator (the picked upper
     tables, newest first, then the picked lower tables as one run) are in
     recency order on equal internal keys — [within_ok (stream_srcs tops bots)].
-    It is derived from [tier_inv] for each kind below. *)
+    It is derived from [scan_inv] for each kind below. *)
 
 (** L0 -> L0: needs the ids of the new tables to be different from the compacted ones. *)
 Definition fresh_ids (top : list N) (added : list (N * N)) : Prop :=
@@ -618,21 +618,33 @@ Proof.
   cbn [concat]. now rewrite app_nil_r.
 Qed.
 
-Lemma tier_within s t : tier_inv (tiers_of s) -> In t (tiers_of s) -> within_ok t.
-Proof. intros [_ _ Hw _] Ht. rewrite Forall_forall in Hw. now apply Hw. Qed.
+Lemma scan_within s : scan_inv (scan_srcs s) -> within_ok (scan_srcs s).
+Proof. intros (_ & _ & H). exact H. Qed.
 
-Lemma l0_tier_in s : In (map t_recs (rev (st_l0 s))) (tiers_of s).
-Proof. unfold tiers_of. apply in_or_app. right. apply in_or_app. right. now left. Qed.
+Lemma l0_within s : scan_inv (scan_srcs s) -> within_ok (map t_recs (rev (st_l0 s))).
+Proof.
+  intro H. apply scan_within in H. rewrite scan_srcs_eq in H.
+  apply within_ok_app in H as (_ & H & _). now apply within_ok_app in H as (H & _ & _).
+Qed.
 
-Lemma level_tier_in s lv : In lv (st_lvls s) -> In (level_srcs lv) (tiers_of s).
-Proof. intro H. unfold tiers_of. apply in_or_app. right. apply in_or_app. right. right. now apply in_map. Qed.
+Lemma levels_within s : scan_inv (scan_srcs s) -> within_ok (concat (map level_srcs (st_lvls s))).
+Proof.
+  intro H. apply scan_within in H. rewrite scan_srcs_eq in H.
+  apply within_ok_app in H as (_ & H & _). now apply within_ok_app in H as (_ & H & _).
+Qed.
+
+Lemma level_within s l1 lv l2 :
+  scan_inv (scan_srcs s) -> st_lvls s = l1 ++ lv :: l2 -> within_ok (level_srcs lv).
+Proof.
+  intros H E. apply levels_within in H. rewrite E, map_app, concat_app in H. cbn [map concat] in H.
+  apply within_ok_app in H as (_ & H & _). now apply within_ok_app in H as (H & _ & _).
+Qed.
 
 Lemma l0_merge_order s top :
-  tier_inv (tiers_of s) -> within_ok (stream_srcs (pick top (st_l0 s)) []).
+  scan_inv (scan_srcs s) -> within_ok (stream_srcs (pick top (st_l0 s)) []).
 Proof.
   intro Ht. unfold stream_srcs. apply within_ok_snoc_run; [|apply src_before_nil_r].
-  unfold pick. rewrite <- filter_rev'. apply within_ok_filter.
-  exact (tier_within s _ Ht (l0_tier_in s)).
+  unfold pick. rewrite <- filter_rev'. apply within_ok_filter. now apply l0_within.
 Qed.
 
 (** Equal keys only inside one source: any arrangement is in recency order. *)
@@ -670,23 +682,18 @@ Lemma same_src_incl srcs srcs' :
   (forall a, In a srcs' -> In a srcs) -> same_src_keys srcs -> same_src_keys srcs'.
 Proof. intros Hi H a b x y Ha Hb. apply H; auto. Qed.
 
-Lemma levels_tier_inv s : tier_inv (tiers_of s) -> tier_inv (map level_srcs (st_lvls s)).
+(** An upper level is scanned before the next one. *)
+Lemma levels_before s l1 lv nx l2 :
+  scan_inv (scan_srcs s) -> st_lvls s = l1 ++ lv :: nx :: l2 -> src_before (level_recs lv) (level_recs nx).
 Proof.
-  unfold tiers_of. intro H. apply tier_inv_app in H as (_ & H & _). apply tier_inv_app in H as (_ & H & _).
-  apply tier_inv_app in H as (_ & H & _). exact H.
-Qed.
-
-Lemma levels_cross s l1 lv nx l2 :
-  tier_inv (tiers_of s) -> st_lvls s = l1 ++ lv :: nx :: l2 -> recs_geq (level_recs lv) (level_recs nx).
-Proof.
-  intros Ht E. apply levels_tier_inv in Ht. rewrite E, map_app in Ht. apply tier_inv_app in Ht as (_ & Ht & _).
-  cbn [map] in Ht. apply tier_inv_cons in Ht as (_ & Hg & _). rewrite all_recs_cons_eq in Hg.
-  apply recs_geq_app_r in Hg as [Hg _].
-  eapply recs_geq_mono; [| |exact Hg]; intros x Hx; now apply level_srcs_recs.
+  intros H E. apply levels_within in H. rewrite E, map_app, concat_app in H. cbn [map concat] in H.
+  apply within_ok_app in H as (_ & H & _). apply within_ok_app in H as (_ & _ & H).
+  rewrite concat_app in H. apply src_before_app_r in H as [H _].
+  eapply src_before_mono; [| |exact H]; intros x Hx; now apply level_srcs_recs.
 Qed.
 
 Lemma regular_merge_order s lvl top bot :
-  src_inv s -> tier_inv (tiers_of s) -> 1 <= lvl -> (S (lvl_idx lvl) < length (st_lvls s))%nat ->
+  src_inv s -> scan_inv (scan_srcs s) -> 1 <= lvl -> (S (lvl_idx lvl) < length (st_lvls s))%nat ->
   within_ok (stream_srcs (pick top (lv_main (get_level s lvl))) (pick bot (lv_main (get_level s (lvl + 1))))).
 Proof.
   intros Hsrc Ht H1 Hin. destruct (set_level2_split s lvl H1 Hin) as (l1 & l2 & E & _).
@@ -699,7 +706,7 @@ Proof.
       apply in_rev, pick_in in Ht'. rewrite Forall_forall in Hms. now apply Hms.
     + eapply same_src_incl; [|exact (main_disjoint_same_src _ Hms Hmd)].
       intros a Ha. apply in_map_iff in Ha as (t & <- & Ht'). apply in_map. now apply in_rev, pick_in in Ht'.
-  - apply recs_geq_src_before. eapply recs_geq_mono; [| |exact (levels_cross s l1 lv nx l2 Ht E)].
+  - eapply src_before_mono; [| |exact (levels_before s l1 lv nx l2 Ht E)].
     + intros x Hx. apply (proj1 (in_concat_map_rev t_recs _ x)) in Hx. rewrite level_recs_eq. apply in_or_app. right.
       revert Hx. apply trecs_incl, pick_in.
     + intros x Hx. rewrite level_recs_eq. apply in_or_app. right. revert Hx. apply trecs_incl, pick_in.
@@ -711,13 +718,12 @@ Definition one_shard (top : list N) (shards : list (list table)) : Prop :=
 
 Lemma ingest_merge_order s lvl top bot :
   let lv := get_level s lvl in
-  tier_inv (tiers_of s) -> lvl_in s lvl -> one_shard top (lv_shards lv) ->
+  scan_inv (scan_srcs s) -> lvl_in s lvl -> one_shard top (lv_shards lv) ->
   within_ok (stream_srcs (pick top (shards_all (lv_shards lv))) (pick bot (lv_main lv))).
 Proof.
   intros lv Ht Hin (pre & sh & post & E & Hpre & Hpost).
   destruct (set_level_split s lvl Hin) as (l1 & l2 & El & _). fold lv in El.
-  assert (Hlv : In lv (st_lvls s)) by (rewrite El; apply in_or_app; right; now left).
-  pose proof (tier_within s _ Ht (level_tier_in s lv Hlv)) as Hw.
+  pose proof (level_within s l1 lv l2 Ht El) as Hw.
   assert (Es : concat (map (@rev table) (pre ++ sh :: post))
                = concat (map (@rev table) pre) ++ rev sh ++ concat (map (@rev table) post))
     by (rewrite map_app, concat_app; reflexivity).
@@ -739,7 +745,7 @@ Qed.
 Section Kinds.
   Variables (s : state) (ws : list rec) (lvl : N) (top bot : list N) (added : list (N * N)).
   Hypothesis Hsrc : src_inv s.
-  Hypothesis Htier : tier_inv (tiers_of s).
+  Hypothesis Htier : scan_inv (scan_srcs s).
   Hypothesis Hcontent : content_ok s ws.
 
   Theorem compact_move_content_ok :
@@ -806,7 +812,7 @@ Definition cx_s3 : state := compact cx_s2 KRegular 5 [7] [] [(8, 2)].
 Lemma cx_s0_J : J cx_s0 cx_ws.
 Proof. apply (run_J cx_ops (init 1) [] (J_init 1)); vm_compute; reflexivity. Qed.
 
-Lemma cx_inv s : tier_inv_b s = true -> src_inv s /\ tier_inv (tiers_of s).
+Lemma cx_inv s : tier_inv_b s = true -> src_inv s /\ scan_inv (scan_srcs s).
 Proof. apply tier_inv_b_sound. Qed.
 
 Example cx_l0_content_ok : content_ok cx_l0 cx_ws.
